@@ -17,6 +17,11 @@ MCNext == NextWith(Batches, SUBSET Keys, {{}, Keys} \cup {{k} : k \in Keys}, {Ke
                    {"NO", "YES", "AUTO"}, {"NO", "YES", "KEEP", "AUTO"})
 
 MCSpec == Init /\ [][MCNext]_vars
+(* the same with stale lock files of killed writers as environment steps *)
+MCNextLocks == NextWithLocks(Batches, SUBSET Keys, {{}, Keys} \cup {{k} : k \in Keys}, {Keys, {"k1"}, {"k3", "k2"}}, MCSrc,
+                             {"NO", "YES", "AUTO"}, {"NO", "YES", "KEEP", "AUTO"}, TRUE)
+MCSpecLocks == Init /\ [][MCNextLocks]_vars
+MCViewLocks == <<core, locked>>
 Depth == TLCGet("level") <= MaxDepth
 MCView == core
 =============================================================================
